@@ -207,25 +207,32 @@ impl Screen {
             return; // No changes.
         }
 
+        // Rows of the old geometry that no longer exist must not stay marked.
+        self.dirty.clear();
         self.dirty.extend(0..lines);
 
         if lines < self.lines {
             self.save_cursor();
+            // The scrolling region must not confine the row drop.
+            self.margins = None;
             self.cursor_position(Some(0), Some(0));
             self.delete_lines(Some(self.lines - lines)); // Drop from the top.
             self.restore_cursor();
         }
 
-        if columns < self.columns {
-            for line in self.buffer.values_mut() {
-                for x in columns..self.columns {
-                    line.remove(&x);
-                }
-            }
+        // Nothing may survive outside the new geometry (it would reappear
+        // when the screen grows again).
+        self.buffer.retain(|y, _| *y < lines);
+        for line in self.buffer.values_mut() {
+            line.retain(|x, _| *x < columns);
         }
 
         (self.lines, self.columns) = (lines, columns);
         self.set_margins(None, None);
+
+        // The cursor must end inside the new bounds.
+        self.ensure_hbounds();
+        self.ensure_vbounds(None);
     }
 
     // Ensure the cursor is within horizontal screen bounds."""
